@@ -450,6 +450,10 @@ def symbolic_comprehension(interp, e, fr, it, what):
         from .loops import VBag
         NodeIn = it.g['NodeIn']
         return VBag([Node], lambda a: NodeIn[a], lambda a: VNode(a), note='nodes')
+    if it.kind == 'opaque' and it.tag == 'file' and getattr(interp.ctx, 'fileworld', None) is not None:
+        # iteration over an opened file: its raw lines, in order
+        fw = interp.ctx.fileworld
+        it = VSeq(fw['n'], lambda k: VOpaque(fw['raw'](k), 'rawline'), {'elem_kind': 'rawline'})
     if it.kind == 'opaque' and it.tag.startswith('recitems:') and what == 'list':
         # ((make_str(k), v) for k, v in record.items() if k != <id key>): the record's other attributes, kept opaque
         return VOpaque(it.z, 'recitems-without-id:' + it.tag.split(':', 1)[1])
